@@ -415,56 +415,60 @@ def insertLeaf (ver : Ver) (pre pk : Nibs) (lv : DVal) (key : Nibs) (value : Byt
         (Hd.setKid Hd.noKids j (.leaf none krest (newValue ver value))), d)
     | [] => (true, .none, d)  -- unreachable: common = pk.length < key.length
 
-/-- `insertAt(handle, key, value)` with `inspect` and `insertInspector`; `pre` = path of the node.
-    Fuel: every recursive call consumes at least one nibble of the key.
-    Result: new in-memory handle, `changed`, deathRow. -/
+/-- `inspect` + `insertInspector` on the stored node `stored` at path `pre`; `rec` is `insertAt` for
+    the child the key leads to.  Result: new in-memory handle, `changed`, deathRow. -/
+def insertNode (e : Env) (rec : Hd → Nibs → Nibs → Bytes → Death → Res (Hd × Bool × Death))
+    (stored : Hd) (pre key : Nibs) (value : Bytes) (d : Death) : Res (Hd × Bool × Death) :=
+  match stored with
+  | .empty _ =>
+    .ok (afterInspect stored pre d true (.leaf none key (newValue e.ver value)))
+  | .leaf _ pk lv =>
+    let r := insertLeaf e.ver pre pk lv key value d
+    .ok (afterInspect stored pre r.2.2 r.1 r.2.1)
+  | .branch _ pk bv cs =>
+    let common := lcpLen key pk
+    if common = pk.length ∧ common = key.length then
+      let nv := newValue e.ver value
+      .ok (afterInspect stored pre (replaceOldValue d (pre ++ pk) bv) (!(optEqual bv nv))
+        (.branch none pk (some nv) cs))
+    else if common < pk.length then
+      match pk.drop common with
+      | ix :: prest =>
+        let kids := Hd.setKid Hd.noKids ix (.branch none prest bv cs)
+        let nv := newValue e.ver value
+        if key.length = common then
+          .ok (afterInspect stored pre d true (.branch none (pk.take common) (some nv) kids))
+        else
+          (match key.drop common with
+            | j :: krest =>
+              .ok (afterInspect stored pre d true
+                (.branch none (pk.take common) none (Hd.setKid kids j (.leaf none krest nv))))
+            | [] => .panic)
+      | [] => .panic
+    else
+      match key.drop common with
+      | idx :: krest =>
+        if (cs idx).isNone then
+          .ok (afterInspect stored pre d true
+            (.branch none pk bv (Hd.setKid cs idx (.leaf none krest (newValue e.ver value)))))
+        else
+          (match rec (cs idx) (pre ++ pk ++ [idx]) krest value d with
+            | .ok (c', changed, d') =>
+              .ok (afterInspect stored pre d' changed (.branch none pk bv (Hd.setKid cs idx c')))
+            | .err => .err
+            | .panic => .panic)
+      | [] => .panic
+  | _ => .panic
+
+/-- `insertAt(handle, key, value)`; `pre` = path of the node.
+    Fuel: every recursive call consumes at least one nibble of the key. -/
 def insertAt (e : Env) : Nat → Hd → Nibs → Nibs → Bytes → Death → Res (Hd × Bool × Death)
   | 0, _, _, _, _, _ => .panic
   | fuel + 1, h, pre, key, value, d =>
     match e.resolve pre h with
     | .err => .err
     | .panic => .panic
-    | .ok stored =>
-      match stored with
-      | .empty _ =>
-        .ok (afterInspect stored pre d true (.leaf none key (newValue e.ver value)))
-      | .leaf _ pk lv =>
-        let r := insertLeaf e.ver pre pk lv key value d
-        .ok (afterInspect stored pre r.2.2 r.1 r.2.1)
-      | .branch _ pk bv cs =>
-        let common := lcpLen key pk
-        if common = pk.length ∧ common = key.length then
-          let nv := newValue e.ver value
-          .ok (afterInspect stored pre (replaceOldValue d (pre ++ pk) bv) (!(optEqual bv nv))
-            (.branch none pk (some nv) cs))
-        else if common < pk.length then
-          match pk.drop common with
-          | ix :: prest =>
-            let kids := Hd.setKid Hd.noKids ix (.branch none prest bv cs)
-            let nv := newValue e.ver value
-            if key.length = common then
-              .ok (afterInspect stored pre d true (.branch none (pk.take common) (some nv) kids))
-            else
-              (match key.drop common with
-                | j :: krest =>
-                  .ok (afterInspect stored pre d true
-                    (.branch none (pk.take common) none (Hd.setKid kids j (.leaf none krest nv))))
-                | [] => .panic)
-          | [] => .panic
-        else
-          match key.drop common with
-          | idx :: krest =>
-            if (cs idx).isNone then
-              .ok (afterInspect stored pre d true
-                (.branch none pk bv (Hd.setKid cs idx (.leaf none krest (newValue e.ver value)))))
-            else
-              (match insertAt e fuel (cs idx) (pre ++ pk ++ [idx]) krest value d with
-                | .ok (c', changed, d') =>
-                  .ok (afterInspect stored pre d' changed (.branch none pk bv (Hd.setKid cs idx c')))
-                | .err => .err
-                | .panic => .panic)
-          | [] => .panic
-      | _ => .panic
+    | .ok stored => insertNode e (insertAt e fuel) stored pre key value d
 
 /-! ### remove (`removeAt`, `inspect`, `removeInspector`, `fix`) -/
 
@@ -497,56 +501,59 @@ def afterDelete (old : Hd) (pre : Nibs) (d : Death) : Death :=
   | none => d
   | some h => rowKey pre h :: d
 
-/-- `removeAt(handle, key)` with `inspect` and `removeInspector`.
+/-- `inspect` with `restoreNode` / `replaceNode` on the stored node -/
+def removeKeep (stored : Hd) (pre : Nibs) (changed : Bool) (n : Hd) (d : Death) :
+    Res (Option (Hd × Bool) × Death) :=
+  let r := afterInspect stored pre d changed n
+  .ok (some (r.1, r.2.1), r.2.2)
+
+/-- `replaceNode{fix(...)}` -/
+def removeFixed (stored : Hd) (pre : Nibs) : Res (Hd × Death) → Res (Option (Hd × Bool) × Death)
+  | .ok (n, d') => removeKeep stored pre true n d'
+  | .err => .err
+  | .panic => .panic
+
+/-- `inspect` + `removeInspector` on the stored node `stored` at path `pre`; `rec` is `removeAt` for
+    the child the key leads to.
     Result: `none` = the node is gone, otherwise new in-memory handle and `changed`; deathRow. -/
+def removeNode (e : Env) (rec : Hd → Nibs → Nibs → Death → Res (Option (Hd × Bool) × Death))
+    (stored : Hd) (pre key : Nibs) (d : Death) : Res (Option (Hd × Bool) × Death) :=
+  match stored with
+  | .empty _ => .ok (none, afterDelete stored pre d)
+  | .leaf _ pk lv =>
+    if pk = key then
+      .ok (none, afterDelete stored pre (replaceOldValue d (pre ++ pk) (some lv)))
+    else removeKeep stored pre false stored d
+  | .branch _ pk bv cs =>
+    let common := lcpLen pk key
+    if common = pk.length ∧ common = key.length then
+      if bv.isSome then
+        removeFixed stored pre (fix e pre pk none cs (replaceOldValue d (pre ++ pk) bv))
+      else removeKeep stored pre false stored d
+    else if common < pk.length then removeKeep stored pre false stored d
+    else
+      match key.drop common with
+      | idx :: krest =>
+        if (cs idx).isNone then removeKeep stored pre false stored d
+        else
+          (match rec (cs idx) (pre ++ pk ++ [idx]) krest d with
+            | .err => .err
+            | .panic => .panic
+            | .ok (some (c', changed), d') =>
+              removeKeep stored pre changed (Hd.branch none pk bv (Hd.setKid cs idx c')) d'
+            | .ok (none, d') =>
+              removeFixed stored pre (fix e pre pk bv (Hd.setKid cs idx Hd.none) d'))
+      | [] => .panic
+  | _ => .panic
+
+/-- `removeAt(handle, key)`. -/
 def removeAt (e : Env) : Nat → Hd → Nibs → Nibs → Death → Res (Option (Hd × Bool) × Death)
   | 0, _, _, _, _ => .panic
   | fuel + 1, h, pre, key, d =>
     match e.resolve pre h with
     | .err => .err
     | .panic => .panic
-    | .ok stored =>
-      let restore (n : Hd) (d : Death) : Res (Option (Hd × Bool) × Death) :=
-        let r := afterInspect stored pre d false n
-        .ok (some (r.1, r.2.1), r.2.2)
-      let replace (n : Hd) (d : Death) : Res (Option (Hd × Bool) × Death) :=
-        let r := afterInspect stored pre d true n
-        .ok (some (r.1, r.2.1), r.2.2)
-      match stored with
-      | .empty _ => .ok (none, afterDelete stored pre d)
-      | .leaf _ pk lv =>
-        if pk = key then
-          .ok (none, afterDelete stored pre (replaceOldValue d (pre ++ pk) (some lv)))
-        else restore stored d
-      | .branch _ pk bv cs =>
-        let common := lcpLen pk key
-        if common = pk.length ∧ common = key.length then
-          match bv with
-          | some _ =>
-            (match fix e pre pk none cs (replaceOldValue d (pre ++ pk) bv) with
-              | .ok (n, d') => replace n d'
-              | .err => .err
-              | .panic => .panic)
-          | none => restore stored d
-        else if common < pk.length then restore stored d
-        else
-          match key.drop common with
-          | idx :: krest =>
-            if (cs idx).isNone then restore stored d
-            else
-              (match removeAt e fuel (cs idx) (pre ++ pk ++ [idx]) krest d with
-                | .err => .err
-                | .panic => .panic
-                | .ok (some (c', changed), d') =>
-                  let n := Hd.branch none pk bv (Hd.setKid cs idx c')
-                  if changed then replace n d' else restore n d'
-                | .ok (none, d') =>
-                  (match fix e pre pk bv (Hd.setKid cs idx Hd.none) d' with
-                    | .ok (n, d'') => replace n d''
-                    | .err => .err
-                    | .panic => .panic))
-          | [] => .panic
-      | _ => .panic
+    | .ok stored => removeNode e (removeAt e fuel) stored pre key d
 
 /-! ### Get (`TrieDB.lookup`, `TrieLookup.lookupNode` / `lookupValue` / `fetchValue`) -/
 
